@@ -80,4 +80,10 @@ StartOfDay(z, d0) ==
      ELSE \* midnight is skipped: the first instant whose wall reading is past d0 = the transition that swallowed it
           LET C == {z.trans[i].at : i \in {i \in 1..NT(z) : z.trans[i].at + SegOff(z, i - 1) <= d0 /\ z.trans[i].at + z.trans[i].off > d0}}
           IN CHOOSE a \in C : \A b \in C : a <= b
+\* views of an instant in a zone: toPlainDateTime / toPlainDate / toPlainTime, the offset, Temporal.Now.* with explicit system
+\* information, Instant.toZonedDateTimeISO and withTimeZone all read the same wall reading of the same instant
+\* (day: whole days relative to the base day; sod: second of the local day)
+Views(z, t) == LET w == Wall(z, t) IN [t |-> t, w |-> w, day |-> w \div 86400, sod |-> w % 86400, off |-> OffsetAt(z, t)]
+\* toString then from_str (offset option reject): the printed offset has minute precision and is matched at minute precision
+StringTrip(z, t) == Interpret(z, Wall(z, t), "offset", RoundToMinute(OffsetAt(z, t)), "compatible", "reject", TRUE)
 =============================================================================
